@@ -134,3 +134,74 @@ def not_live_edges(g, mvar: str):
 def live_follow(g, mvar: str):
     dead = not_live_edges(g, mvar)
     return (lambda e: (e.src, e.dst, e.kind) not in dead), dead
+
+
+def snapshot_loop_sends(prog, ty, cg, mm, rm):
+    """(function, loop, send call or None, verdict) for the manager's delivery loops: verdict is 'no-nested-removal' when
+    the loop body cannot remove modules, else 'live' / 'stale' per Module.send_message in the body, according to whether
+    the liveness of the addressed module is re-established in the same iteration before the send."""
+    from ..program import ancestors
+    out = []
+    for fn in ("forward_message", "send_to_loggers", "send_active_clients"):
+        f = mm.methods.get(fn)
+        if f is None:
+            raise AnalysisError(f"anchor vanished: MessageManager.{fn}")
+        g = C.build(f.node)
+        gs = flow.guard_states(g)
+        for lp in [n for n in walk_local(f.node) if isinstance(n, (ast.For,))]:
+            uses = []
+            for n in g.nodes:
+                if n.ast is None or not any(a is lp for a in ancestors(n.ast)):
+                    continue
+                for c in node_calls(n):
+                    if is_method_call(c, "send_message") and ty.expr(f, recv_of(c)).is_cls("Module") and not any(isinstance(a, ast.ExceptHandler) for a in ancestors(c)):
+                        uses.append((n, c))
+            if not uses:
+                continue
+            body_calls = [fi for (cnode, st, fi, d) in cg.calls.get(f.key, []) if fi is not None and any(a is lp for a in ancestors(cnode))]
+            nested_removal = any(fi.key == rm.key or rm.key in cg.may_call(fi) for fi in body_calls)
+            if not nested_removal:
+                out.append((f, lp, None, "no-nested-removal"))
+                continue
+            for n, c in uses:
+                mv = path_of(recv_of(c))
+                goals = [guards.parse(f"{mv}.conn in self.modules"), guards.parse(f"{mv}.connected"), guards.parse(f"{mv} in self.logger_modules")]
+                okl = any(not guards.any_path_implies(gs.at(n), gl) for gl in goals)
+                out.append((f, lp, c, "live" if okl else "stale"))
+    return out
+
+
+class _Rename(ast.NodeTransformer):
+    def __init__(self, a, b):
+        self.a, self.b = a, b
+
+    def visit_Name(self, n):
+        return ast.copy_location(ast.Name(id=self.b, ctx=n.ctx), n) if n.id == self.a else n
+
+
+def comprehension_facts(fnode: ast.FunctionDef, var: str):
+    """Facts that hold of loop variable `var` for the whole loop because the collection it iterates was built by a
+    comprehension filter: [(expr over var, True)].  Only sound for conditions that cannot change while the loop runs
+    (identity / field comparisons) - callers must not use them for liveness."""
+    import copy
+    from ..dataflow import definitions
+    out = []
+    iters = [n.iter for n in walk_local(fnode) if isinstance(n, ast.For) and isinstance(n.target, ast.Name) and n.target.id == var]
+    # `var = coll[i]` inside an index loop
+    vdefs = definitions(fnode, var)
+    if not iters and len(vdefs) == 1 and vdefs[0][0] == "assign" and isinstance(vdefs[0][1], ast.Subscript) and isinstance(vdefs[0][1].value, ast.Name) and not isinstance(vdefs[0][1].slice, ast.Slice):
+        iters = [vdefs[0][1].value]
+    for it in iters:
+        if isinstance(it, ast.Name):
+            defs = [r for k, r in definitions(fnode, it.id)]
+            if len(defs) != 1:
+                continue
+            it = defs[0]
+        while isinstance(it, ast.Call) and isinstance(it.func, ast.Name) and it.func.id in ("list", "tuple", "sorted", "set", "frozenset") and len(it.args) == 1:
+            it = it.args[0]
+        if isinstance(it, (ast.ListComp, ast.SetComp, ast.GeneratorExp)) and len(it.generators) == 1 and isinstance(it.generators[0].target, ast.Name) and isinstance(it.elt, ast.Name) and it.elt.id == it.generators[0].target.id:
+            for cond in it.generators[0].ifs:
+                conj = cond.values if isinstance(cond, ast.BoolOp) and isinstance(cond.op, ast.And) else [cond]
+                for c in conj:
+                    out.append((ast.fix_missing_locations(_Rename(it.elt.id, var).visit(copy.deepcopy(c))), True))
+    return out
